@@ -28,12 +28,27 @@ Modelling decisions (all stated in the evidence `explanation` as well):
       component); the sanitiser's `return` must be unreachable.  A violation
       needs a path without uninterpreted decisions (or a concrete witness path
       evaluated end to end); otherwise the clause refuses.
-    - C19.c: self.write is False (the constructor default) / None / 0; no
-      mutating sink may be reachable and the exits after the flag was read
-      answer 4.03.
+    - C19.c: the constructor's permission parameter `write` is False (its
+      default) / None / 0 and every attribute __init__ computes from it
+      (self.write, a complement flag, a mode string ...) holds the value
+      folded by the checker's evaluator; no mutating sink may be reachable
+      and the exits after the permission was read answer 4.03.  Verdicts
+      handed back as values (a response code, an exception class, a
+      sentinel, a (flag, code) pair, a key of a module-level table) are
+      followed per path: the executor knows how two program-level constants
+      compare (kit: named constants).  A handler wrapped by a decorator of
+      the module/class is executed through the wrapper the decorator
+      returns; an uninterpretable decorator is refused.
     - C19.f: the Uri-Path is (); no mutating sink may be reachable.
     - C19.d: the values reaching seek/read/the response are compared by
       normal form in every state.
+    - C19.e (2): every stat/unlink that is the first file-system operation
+      on its path fails with FileNotFoundError; the request must then end
+      in a 4.04 / 4.12 answer, wherever and however the failure is mapped.
+* Plain functions of the module that the class refers to by name belong to
+  the file server like its (static) methods: their sinks, parameters (bound
+  at call sites / where they are handed over as callables) and effects are
+  analysed the same way.
   `assert` never creates a branch and so never counts.
 """
 
@@ -57,14 +72,16 @@ R = Rules(
         "contains a component with '/', the component '.', the component '..', or an empty leading component "
         "followed by another one (absolute join) -- whether the rejection is spelled with any()/all(), loops, "
         "membership tests, helper predicates, tests on the joined string or containment of the result in "
-        "self.root; (c) with self.write False/None/0 no mutating sink (including those in helpers, closures, "
-        "lambdas and methods handed over as callables) is reachable, the exits after the flag was consulted "
-        "answer 4.03, and self.write is only assigned in __init__; (f) with an empty Uri-Path no mutating sink "
+        "self.root; (c) with the constructor's write-permission parameter False/None/0 (every attribute __init__ derives "
+        "from it holding the corresponding value) no mutating sink (including those in helpers, closures, lambdas, "
+        "module-level helpers, methods handed over as callables, and behind decorators) is reachable, the exits after the "
+        "permission was consulted answer 4.03, and the attributes holding it are only assigned in __init__; (f) with an empty Uri-Path no mutating sink "
         "is reachable; "
         "(d) render_get_file seeks to block.start, reads block.size+1 bytes in binary mode, sets more iff "
         "len(data) > block.size, sends data[:block.size] and answers (block.number, more, block.szx), with "
         "start = number*size; (e) the sanitiser's only escapes are 4.00 renderable errors, the trailing-slash "
-        "errors are 4.00, and undominated stat/unlink probes in render_* map FileNotFoundError to 4.04/4.12. "
+        "errors are 4.00, and when the first file-system operation of a request is a stat/unlink that fails with "
+        "FileNotFoundError the request ends in a 4.04/4.12 answer (symbolic execution with that failure injected). "
         "Paper step: with (a)-(b) every path handed to the operating system is root, or root joined with a "
         "relative string none of whose components is '.', '..' or contains '/', hence lexically below root. "
         "Not decided: symlinks inside the root, races with other processes, NUL bytes (rejected by the OS "
@@ -98,7 +115,9 @@ SAME_PATH_METHODS = {"resolve", "absolute", "expanduser"}
 
 
 def _class_funcs(prog):
-    """All functions of FileServer: methods and functions nested in them."""
+    """All functions of FileServer: methods and functions nested in them -- and the plain functions of its module
+    (with the functions nested in those) that they refer to by name, transitively: a helper extracted to module level
+    is part of the file server just like one extracted into a (static) method."""
     ci = prog.cls(FS)
     out = []
     for fi in prog.funcs.values():
@@ -107,6 +126,22 @@ def _class_funcs(prog):
             f = f.parent
         if f is not None and f.cls is ci:
             out.append(fi)
+    modfuncs = {fi.name: fi for fi in prog.funcs.values() if fi.module is ci.module and fi.cls is None and fi.parent is None}
+    todo = list(out)
+    have = {fi.qn for fi in out}
+    while todo:
+        fi = todo.pop()
+        for n in ast.walk(fi.node):
+            if isinstance(n, ast.Name) and isinstance(n.ctx, ast.Load) and n.id in modfuncs and modfuncs[n.id].qn not in have:
+                g = modfuncs[n.id]
+                for f2 in prog.funcs.values():
+                    top = f2
+                    while top.parent is not None:
+                        top = top.parent
+                    if top is g and f2.qn not in have:
+                        have.add(f2.qn)
+                        out.append(f2)
+                        todo.append(f2)
     return ci, out
 
 
@@ -182,6 +217,7 @@ class Flow:
         self._param = {}
         self._obs = None
         self._busy = set()
+        self._comp = {}
 
     # -- sinks -----------------------------------------------------------
     def ext_name(self, fi, call):
@@ -253,7 +289,19 @@ class Flow:
         if e is None or depth > 12:
             return None
         if isinstance(e, ast.Name):
+            g = self._comp_bindings(scope.fi).get(id(e))
+            if g is not None:
+                # a variable of an enclosing comprehension / generator expression: an element of what it iterates over
+                return _component(g.target, e.id, self.elem_kind(scope, g.iter, depth + 1))
             return self._name_kind(scope, e.id, depth)
+        if isinstance(e, ast.Tuple) and isinstance(getattr(e, "ctx", None), ast.Load) and not any(isinstance(x, ast.Starred) for x in e.elts):
+            return ("tuple", tuple(self.kind(scope, x, depth + 1) for x in e.elts))
+        if isinstance(e, ast.Subscript) and not isinstance(e.slice, ast.Slice):
+            k = self.kind(scope, e.value, depth + 1)
+            i = _int_const(e.slice)
+            if isinstance(k, tuple) and i is not None and -len(k[1]) <= i < len(k[1]):
+                return k[1][i]
+            return None
         if isinstance(e, ast.Attribute):
             if chain(e) == "self.root":
                 return "path"
@@ -269,7 +317,15 @@ class Flow:
             fn = self.ext_name(scope.fi, e)
             if fn in TEMP_CTORS:
                 d = next((k.value for k in e.keywords if k.arg == "dir"), None)
-                return "tmp" if self.kind(scope, d, depth + 1) == "path" else None
+                if d is None and fn in ("tempfile.mkstemp", "tempfile.mkdtemp", "tempfile.mktemp") and len(e.args) >= 3:
+                    d = e.args[2]
+                if self.kind(scope, d, depth + 1) != "path":
+                    return None
+                if fn == "tempfile.mkstemp":
+                    return ("tuple", (None, "path"))  # (file descriptor, name of the file created in the directory)
+                if fn in ("tempfile.mkdtemp", "tempfile.mktemp"):
+                    return "path"  # the name itself
+                return "tmp"  # an object whose .name lies in the directory
             if chain(e.func) in WRAPPERS and len(e.args) == 1 and not e.keywords:
                 return "path" if self.kind(scope, e.args[0], depth + 1) == "path" else None
             if isinstance(e.func, ast.Attribute) and e.func.attr in SAME_PATH_METHODS:
@@ -306,7 +362,7 @@ class Flow:
                 if default is not None and scope.outer is not None and (scope.lam is not None or scope.fi.parent is not None):
                     # closure-capturing default (`path=path`), evaluated in the enclosing scope
                     return self.kind(scope.outer, default, depth + 1)
-                if scope.lam is not None or scope.fi.cls is None:
+                if scope.lam is not None:
                     return None
                 return self._param_kind(scope.fi, name, depth)
             if not writes:
@@ -320,42 +376,153 @@ class Flow:
 
     def _write_kind(self, scope, w, name, depth):
         if isinstance(w, ast.Assign):
-            if len(w.targets) == 1 and isinstance(w.targets[0], ast.Name):
-                return self.kind(scope, w.value, depth + 1)
-            return None
+            kinds = set()
+            for t in w.targets:
+                if any(isinstance(x, ast.Name) and x.id == name for x in ast.walk(t)):
+                    # `a = v`, and `fd, a = v` with v a tuple-valued expression: the component at a's position
+                    kinds.add(_component(t, name, self.kind(scope, w.value, depth + 1)))
+            return kinds.pop() if len(kinds) == 1 else None
         if isinstance(w, ast.AnnAssign) and w.value is not None:
             return self.kind(scope, w.value, depth + 1)
         if isinstance(w, (ast.For, ast.AsyncFor)):
-            it = w.iter
-            if isinstance(w.target, ast.Name):
-                if isinstance(it, ast.Call) and isinstance(it.func, ast.Attribute) and it.func.attr in ("iterdir", "glob", "rglob"):
-                    return "path" if self.kind(scope, it.func.value, depth + 1) == "path" else None
-                if self._obs_iter(it) == "keys":
-                    return "path" if self.obs_keys_clean() else None
-                return None
-            if isinstance(w.target, (ast.Tuple, ast.List)) and w.target.elts and isinstance(w.target.elts[0], ast.Name) and w.target.elts[0].id == name:
-                if self._obs_iter(it) == "items":
-                    return "path" if self.obs_keys_clean() else None
-            return None
+            return _component(w.target, name, self.elem_kind(scope, w.iter, depth + 1))
         if isinstance(w, (ast.With, ast.AsyncWith)):
             for item in w.items:
-                if isinstance(item.optional_vars, ast.Name) and item.optional_vars.id == name:
-                    return self.kind(scope, item.context_expr, depth + 1)
+                if item.optional_vars is not None and any(isinstance(x, ast.Name) and x.id == name for x in ast.walk(item.optional_vars)):
+                    k = self.kind(scope, item.context_expr, depth + 1)
+                    if k == "tmp" and self.ext_name(scope.fi, item.context_expr) == "tempfile.TemporaryDirectory":
+                        k = "path"  # entering the context yields the directory's name
+                    return _component(item.optional_vars, name, k)
             return None
+        if isinstance(w, ast.NamedExpr):
+            return self.kind(scope, w.value, depth + 1)
         return None
 
-    def _obs_iter(self, it):
-        """'items' / 'keys' when `it` enumerates self._observations (possibly copied by list/tuple/sorted)."""
-        while isinstance(it, ast.Call) and chain(it.func) in ("list", "tuple", "sorted", "iter", "set", "frozenset") and len(it.args) == 1:
-            it = it.args[0]
+    def elem_kind(self, scope, it, depth=0):
+        """kind of the elements obtained by iterating over the expression `it` (None: not known to be sanitised).
+        Children of a sanitised directory, keys / items of the observation table, and -- element-wise -- whatever a
+        wrapper (list, tuple, sorted, reversed, iter, set, filter, enumerate, zip), a display, a comprehension, a
+        conditional expression or a local built from these (assignment, append / extend / insert / +=) hands on."""
+        if it is None or depth > 12:
+            return None
+        if isinstance(it, ast.Call):
+            f = it.func
+            fn = chain(f)
+            if isinstance(f, ast.Attribute) and f.attr in ("iterdir", "glob", "rglob"):
+                return "path" if self.kind(scope, f.value, depth + 1) == "path" else None
+            if isinstance(f, ast.Attribute) and chain(f.value) == "self._observations" and not it.args and not it.keywords:
+                clean = "path" if self.obs_keys_clean() else None
+                return {"keys": clean, "items": ("tuple", (clean, None))}.get(f.attr)
+            if isinstance(f, ast.Attribute) and f.attr == "copy" and not it.args and not it.keywords:
+                return self.elem_kind(scope, f.value, depth + 1)
+            if fn in ("list", "tuple", "iter", "reversed", "set", "frozenset") and len(it.args) == 1 and not it.keywords:
+                return self.elem_kind(scope, it.args[0], depth + 1)
+            if fn == "sorted" and len(it.args) == 1 and all(k.arg in ("key", "reverse") for k in it.keywords):
+                return self.elem_kind(scope, it.args[0], depth + 1)
+            if fn == "filter" and len(it.args) == 2 and not it.keywords:
+                return self.elem_kind(scope, it.args[1], depth + 1)
+            if fn == "enumerate" and 1 <= len(it.args) <= 2:
+                return ("tuple", (None, self.elem_kind(scope, it.args[0], depth + 1)))
+            if fn == "zip" and it.args and not any(isinstance(a, ast.Starred) for a in it.args):
+                return ("tuple", tuple(self.elem_kind(scope, a, depth + 1) for a in it.args))
+            return None
         if chain(it) == "self._observations":
-            return "keys"
-        if isinstance(it, ast.Call) and isinstance(it.func, ast.Attribute) and chain(it.func.value) == "self._observations" and not it.args:
-            if it.func.attr == "items":
-                return "items"
-            if it.func.attr == "keys":
-                return "keys"
+            return "path" if self.obs_keys_clean() else None
+        if isinstance(it, (ast.List, ast.Tuple, ast.Set)):
+            kinds = {self.elem_kind(scope, x.value, depth + 1) if isinstance(x, ast.Starred) else self.kind(scope, x, depth + 1) for x in it.elts}
+            return kinds.pop() if len(kinds) == 1 else None
+        if isinstance(it, (ast.ListComp, ast.SetComp, ast.GeneratorExp)):
+            return self.kind(scope, it.elt, depth + 1)  # its variables resolve through _comp_bindings
+        if isinstance(it, ast.IfExp):
+            a, b = self.elem_kind(scope, it.body, depth + 1), self.elem_kind(scope, it.orelse, depth + 1)
+            return a if a == b else None
+        if isinstance(it, ast.BinOp) and isinstance(it.op, ast.Add):
+            a, b = self.elem_kind(scope, it.left, depth + 1), self.elem_kind(scope, it.right, depth + 1)
+            return a if a == b else None
+        if isinstance(it, ast.Name):
+            g = self._comp_bindings(scope.fi).get(id(it))
+            if g is not None:
+                return None
+            return self._collection_kind(scope, it.id, depth)
         return None
+
+    def _collection_kind(self, scope, name, depth):
+        """element kind of a local collection: every value it is bound to and everything added to it agree"""
+        key = (id(scope.node), "elements of " + name)
+        if key in self._busy or scope.lam is not None or scope.param_default(name)[0]:
+            return None
+        writes = writes_to_name(scope.node, name)
+        if not writes:
+            return None
+        self._busy.add(key)
+        try:
+            kinds = set()
+            empty = lambda v: (isinstance(v, (ast.List, ast.Tuple, ast.Set)) and not v.elts) or \
+                (isinstance(v, ast.Call) and chain(v.func) in ("list", "set", "tuple", "collections.deque", "deque") and not v.args and not v.keywords)
+            for w in writes:
+                if isinstance(w, ast.Assign) and len(w.targets) == 1 and isinstance(w.targets[0], ast.Name):
+                    if not empty(w.value):
+                        kinds.add(self.elem_kind(scope, w.value, depth + 1))
+                elif isinstance(w, ast.AnnAssign) and w.value is not None:
+                    if not empty(w.value):
+                        kinds.add(self.elem_kind(scope, w.value, depth + 1))
+                elif isinstance(w, ast.AugAssign) and isinstance(w.op, ast.Add):
+                    kinds.add(self.elem_kind(scope, w.value, depth + 1))
+                else:
+                    return None
+            for n in _scope_nodes(scope):
+                if isinstance(n, ast.Call) and isinstance(n.func, ast.Attribute) and isinstance(n.func.value, ast.Name) and n.func.value.id == name:
+                    m = n.func.attr
+                    if m in ("append", "add", "appendleft") and len(n.args) == 1:
+                        kinds.add(self.kind(scope, n.args[0], depth + 1))
+                    elif m in ("extend", "update", "extendleft") and len(n.args) == 1:
+                        kinds.add(self.elem_kind(scope, n.args[0], depth + 1))
+                    elif m == "insert" and len(n.args) == 2:
+                        kinds.add(self.kind(scope, n.args[1], depth + 1))
+                    elif m in ("__setitem__", "__iadd__"):
+                        return None
+                elif isinstance(n, ast.Subscript) and isinstance(n.ctx, ast.Store) and isinstance(n.value, ast.Name) and n.value.id == name:
+                    return None
+            return kinds.pop() if len(kinds) == 1 else None
+        finally:
+            self._busy.discard(key)
+
+    def _comp_bindings(self, fi):
+        """{id(Name node): comprehension generator that binds it} for the loads of comprehension variables in fi"""
+        m = self._comp.get(fi.qn)
+        if m is not None:
+            return m
+        m = self._comp[fi.qn] = {}
+
+        def visit(node, env):
+            if isinstance(node, (ast.ListComp, ast.SetComp, ast.GeneratorExp, ast.DictComp)):
+                env2 = dict(env)
+                for g in node.generators:
+                    visit(g.iter, env2)
+                    for x in ast.walk(g.target):
+                        if isinstance(x, ast.Name):
+                            env2[x.id] = g
+                    for c in g.ifs:
+                        visit(c, env2)
+                for part in ([node.key, node.value] if isinstance(node, ast.DictComp) else [node.elt]):
+                    visit(part, env2)
+                return
+            if isinstance(node, ast.Lambda):
+                a = node.args
+                shadow = {p.arg for p in a.posonlyargs + a.args + a.kwonlyargs} | {x.arg for x in (a.vararg, a.kwarg) if x is not None}
+                for d in list(a.defaults) + [d for d in a.kw_defaults if d is not None]:
+                    visit(d, env)
+                visit(node.body, {k: v for k, v in env.items() if k not in shadow})
+                return
+            if isinstance(node, ast.Name):
+                if isinstance(node.ctx, ast.Load) and node.id in env:
+                    m[id(node)] = env[node.id]
+                return
+            for child in ast.iter_child_nodes(node):
+                visit(child, env)
+
+        visit(fi.node, {})
+        return m
 
     def obs_keys_clean(self):
         if self._obs is None:
@@ -396,7 +563,36 @@ class Flow:
             self._obs = ok and n_ins >= 1
         return self._obs
 
-    def call_sites(self, meth_name):
+    def call_sites_of(self, fi):
+        """call sites of a method (self.m), of a plain function of the module or of a nested function (by name)"""
+        if fi.cls is not None and fi.parent is None:
+            return self.call_sites(fi.name)
+        return self.call_sites(fi.name, of=fi)
+
+    def bare_refs_of(self, fi):
+        if fi.cls is not None and fi.parent is None:
+            return self.bare_refs(fi.name)
+        return self.bare_refs(fi.name, of=fi)
+
+    def _ref_test(self, user, meth_name, of):
+        """predicate recognising a reference to the function inside the function `user` (None: cannot refer to it)"""
+        if of is None:
+            sn = _self_name(user)
+            if sn is None:
+                return None
+            return lambda x: isinstance(x, ast.Attribute) and isinstance(x.value, ast.Name) and x.value.id == sn and x.attr == meth_name
+        # a plain name: visible in the defining function and the functions nested in it (nested def) / everywhere in
+        # the module (module-level def), unless a local of the same name shadows it on the way
+        f = user
+        while f is not None and f is not of.parent:
+            if meth_name in kit._local_names(f.node):
+                return None
+            f = f.parent
+        if of.parent is not None and f is None:
+            return None
+        return lambda x: isinstance(x, ast.Name) and isinstance(x.ctx, ast.Load) and x.id == meth_name
+
+    def call_sites(self, meth_name, of=None):
         """[(scope, call)] of self.<meth>(...) anywhere in the class.  A method handed over as a callable with its
         arguments -- functools.partial(self.m, a), loop.run_in_executor(None, self.m, a), asyncio.to_thread(self.m, a),
         call_soon(self.m, a): the positional arguments that follow the callable are its arguments -- is the same
@@ -404,10 +600,9 @@ class Flow:
         `_via` is the enclosing call."""
         out = []
         for fi in self.funcs:
-            sn = _self_name(fi)
-            if sn is None:
+            ref = self._ref_test(fi, meth_name, of)
+            if ref is None:
                 continue
-            ref = lambda x: isinstance(x, ast.Attribute) and isinstance(x.value, ast.Name) and x.value.id == sn and x.attr == meth_name
             for scope in _scopes(fi):
                 for n in _scope_nodes(scope):
                     if not isinstance(n, ast.Call):
@@ -423,12 +618,12 @@ class Flow:
                             out.append((scope, synth))
         return out
 
-    def bare_refs(self, meth_name):
+    def bare_refs(self, meth_name, of=None):
         """[(scope, attribute)] of references self.<meth> that are neither called nor handed over with arguments"""
         out = []
         for fi in self.funcs:
-            sn = _self_name(fi)
-            if sn is None:
+            ref = self._ref_test(fi, meth_name, of)
+            if ref is None:
                 continue
             for scope in _scopes(fi):
                 nodes = _scope_nodes(scope)
@@ -438,8 +633,7 @@ class Flow:
                         used.add(id(n.func))
                         used.update(id(a) for a in n.args)
                 for n in nodes:
-                    if isinstance(n, ast.Attribute) and isinstance(n.value, ast.Name) and n.value.id == sn and n.attr == meth_name \
-                            and id(n) not in used and isinstance(n.ctx, ast.Load):
+                    if ref(n) and id(n) not in used and isinstance(n.ctx, ast.Load):
                         out.append((scope, n))
         return out
 
@@ -449,7 +643,7 @@ class Flow:
             return self._param[key]
         self._param[key] = None
         pn = params(fi)
-        sites = self.call_sites(fi.name)
+        sites = self.call_sites_of(fi)
         kinds = set()
         for scope, call in sites:
             arg = None
@@ -476,6 +670,21 @@ def _self_name(fi):
     a = m.node.args
     ps = a.posonlyargs + a.args
     return ps[0].arg if ps else None
+
+
+def _component(target, name, k):
+    """kind bound to `name` when a value of kind k is assigned to / unpacked into `target`"""
+    if isinstance(target, ast.Name):
+        return k if target.id == name else None
+    if isinstance(target, ast.Starred):
+        return None
+    if isinstance(target, (ast.Tuple, ast.List)):
+        if not (isinstance(k, tuple) and k[0] == "tuple" and len(k[1]) == len(target.elts)) or any(isinstance(x, ast.Starred) for x in target.elts):
+            return None
+        for t, kk in zip(target.elts, k[1]):
+            if any(isinstance(x, ast.Name) and x.id == name for x in ast.walk(t)):
+                return _component(t, name, kk)
+    return None
 
 
 def _const_str_(e):
@@ -563,23 +772,77 @@ class Sanitiser:
         return e, resolved
 
     def _shape(self, v):
+        """How the result is assembled from the root and the components P.  Two families, equivalent for every
+        component tuple the four exclusions let through (no component contains '/', is '.' or '..', no empty
+        component before the last):
+          join      root / "/".join(P), root.joinpath("/".join(P)), Path(root, "/".join(P)), root / Path("/".join(P))
+          joinpath  root.joinpath(*P), Path(root, *P), root / Path(*P), a local starting at root and extended by
+                    `x = x / c` for c in P  -- pathlib joins component-wise, drops empty components, and the result
+                    leaves the root only through a component starting with '/' (exclusion (i)) or '..' (iii)
+        """
         ctx = self.ctx
+        fn = self.fi.node
         ctx.need(v is not None, "request_to_localpath returns no value")
         Rx, _ = self._strip(v)
-        if (isinstance(Rx, ast.Call) and isinstance(Rx.func, ast.Attribute) and Rx.func.attr == "joinpath" and chain(Rx.func.value) == "self.root"
-                and len(Rx.args) == 1 and isinstance(Rx.args[0], ast.Starred) and not Rx.keywords):
-            # root.joinpath(*components) == root / "/".join(components) for every path the guards let through
-            P = resolve_local(self.fi.node, Rx.args[0].value)
-            return {"R": Rx, "J": None, "P": P, "Jsrc": None, "Psrc": Rx.args[0].value, "kind": "joinpath"}
-        b = match("self.root / $j", Rx)
-        ctx.need(b is not None, "returned value %s is not of the form self.root / <joined components>" % stmt_text(Rx, 80))
-        J = resolve_local(self.fi.node, b["j"])
-        jb = match("$s.join($p)", J)
-        ctx.need(jb is not None and _const_str(jb["s"]) == "/", "joined value %s is not '/'.join(<components>)" % stmt_text(J, 80))
-        P = resolve_local(self.fi.node, jb["p"])
+        is_root = lambda e: chain(self._strip(e)[0]) == "self.root"
+        ctor = lambda e: isinstance(e, ast.Call) and chain(e.func) in WRAPPERS - {"str", "os.fspath"} and not e.keywords
+
+        def joined(e):
+            """P when e is "/".join(P) (possibly behind a single-assignment local / str()), else None"""
+            e = resolve_local(fn, e)
+            while isinstance(e, ast.Call) and chain(e.func) in ("str", "os.fspath") and len(e.args) == 1 and not e.keywords:
+                e = resolve_local(fn, e.args[0])
+            jb = match("$s.join($p)", e)
+            if jb is not None and _const_str(jb["s"]) == "/":
+                return jb["p"]
+            return None
+
+        def tail(args):
+            """(kind, P source) for the arguments that follow the root: `*P` or "/".join(P)"""
+            if len(args) == 1 and isinstance(args[0], ast.Starred):
+                return "joinpath", args[0].value
+            if len(args) == 1 and joined(args[0]) is not None:
+                return "join", joined(args[0])
+            return None
+
+        found = None
+        if isinstance(Rx, ast.BinOp) and isinstance(Rx.op, ast.Div) and is_root(Rx.left):
+            right = resolve_local(fn, Rx.right)
+            if joined(right) is not None:
+                found = ("join", joined(right))
+            elif ctor(right):
+                found = tail(right.args)
+        elif isinstance(Rx, ast.Call) and isinstance(Rx.func, ast.Attribute) and Rx.func.attr == "joinpath" and is_root(Rx.func.value) and not Rx.keywords:
+            found = tail(Rx.args)
+        elif ctor(Rx) and Rx.args and is_root(Rx.args[0]):
+            found = tail(Rx.args[1:])
+        elif isinstance(v, ast.Name) or isinstance(Rx, ast.Name):
+            # accumulation: x = root; for c in P: x = x / c   (or x /= c, x = x.joinpath(c))
+            name = (Rx if isinstance(Rx, ast.Name) else v).id
+            ws = writes_to_name(fn, name)
+            inits = [w for w in ws if isinstance(w, (ast.Assign, ast.AnnAssign)) and w.value is not None and is_root(w.value)]
+            steps = [w for w in ws if w not in inits]
+            loops = [n for n in walk_no_nested(fn) if isinstance(n, ast.For) and isinstance(n.target, ast.Name) and not n.orelse]
+            if len(inits) == 1 and len(steps) == 1 and inits[0] in fn.body:
+                w = steps[0]
+                loop = next((lp for lp in loops if lp in fn.body and lp.body == [w]), None)
+                if loop is not None and fn.body.index(inits[0]) < fn.body.index(loop):
+                    c = loop.target.id
+                    ext = None
+                    if isinstance(w, ast.AugAssign) and isinstance(w.op, ast.Div):
+                        ext = w.value
+                    elif isinstance(w, ast.Assign) and len(w.targets) == 1 and isinstance(w.targets[0], ast.Name):
+                        bb = match("%s / $c" % name, w.value) or match("%s.joinpath($c)" % name, w.value)
+                        ext = bb["c"] if bb is not None else None
+                    if isinstance(ext, ast.Name) and ext.id == c and len(writes_to_name(fn, c)) == 1:
+                        found = ("joinpath", loop.iter)
+        ctx.need(found is not None, "returned value %s is not the root joined with the components (self.root / '/'.join(P), self.root.joinpath(*P), Path(self.root, *P), ...)"
+                 % stmt_text(Rx, 80))
+        kind_, Psrc = found
+        P = resolve_local(fn, Psrc)
         while isinstance(P, ast.Call) and chain(P.func) in ("list", "tuple") and len(P.args) == 1 and not P.keywords:
-            P = resolve_local(self.fi.node, P.args[0])
-        return {"R": Rx, "J": J, "P": P, "Jsrc": b["j"], "Psrc": jb["p"], "kind": "join"}
+            P = resolve_local(fn, P.args[0])
+        return {"R": Rx, "P": P, "Psrc": Psrc, "kind": kind_}
 
 
 def _int_const(e):
@@ -753,20 +1016,6 @@ def _is_renderable(prog, qn):
     return prog.is_subclass(qn, "aiocoap.error.RenderableError")
 
 
-def _responds_with(prog, fi, node, codes_ok):
-    """Is CFG exit statement `node` (Return/Raise) an answer with one of the given code names?"""
-    if isinstance(node, ast.Return) and node.value is not None:
-        v = resolve_local(fi.node, node.value)
-        if isinstance(v, ast.Call):
-            code = next((k.value for k in v.keywords if k.arg == "code"), None)
-            return code is not None and _code_name(code) in codes_ok
-        return False
-    if isinstance(node, ast.Raise) and node.exc is not None:
-        q = _exc_class_qn(prog, fi, node.exc)
-        return q is not None and _is_renderable(prog, q) and _class_code(prog, q) in codes_ok
-    return False
-
-
 def _outcome_responds_with(prog, fi, kind, val, codes_ok):
     """Same for an outcome of the symbolic executor: ('return', value) / ('raise', exception value)."""
     if val is None:
@@ -800,6 +1049,7 @@ class Reach:
                     self.sinks.append((fi, scope, call, ".%s() on a file object" % call.func.attr, "filewrite"))
         # functions from which a mutating sink can be reached through calls inside the class
         has = {fi.qn for fi, *_ in self.sinks}
+        modfuncs = {fi.name: fi for fi in fl.funcs if fi.cls is None and fi.parent is None}
         changed = True
         while changed:
             changed = False
@@ -811,21 +1061,29 @@ class Reach:
                         has.add(fi.qn)
                         changed = True
                         break
+                    if isinstance(n, ast.Name) and isinstance(n.ctx, ast.Load) and n.id in modfuncs and modfuncs[n.id].qn in has:
+                        has.add(fi.qn)
+                        changed = True
+                        break
                     if isinstance(n, (ast.FunctionDef, ast.AsyncFunctionDef)) and n is not fi.node and any(f.node is n and f.qn in has for f in fl.funcs):
                         has.add(fi.qn)
                         changed = True
                         break
         self.entries = [fi for fi in fl.funcs if fi.qn in has and not _is_sanitiser(fi)]
         self.base = self.run(None)
+        for fi in self.entries:
+            if fi.qn in self.base.wrapped and (fi.qn, cfg_of(fi).entry) not in self.base.visits:
+                raise AnalysisError("%s is replaced by the wrapper %s of its decorator, and the rule cannot see where the wrapper runs it"
+                                    % (fi.short, self.base.wrapped[fi.qn].split(".")[-1]))
         # A method is *internal* when it is used inside the class (called, handed over as a callable, referenced) and
         # every call was stepped into by the executor: it then only runs in the contexts of those uses.
         self.internal = set()
         self.refs = {}
         for fi in self.entries:
-            if fi.cls is None:
+            if fi.parent is not None:
                 continue
-            sites = fl.call_sites(fi.name)
-            self.refs[fi.qn] = fl.bare_refs(fi.name)
+            sites = fl.call_sites_of(fi)
+            self.refs[fi.qn] = fl.bare_refs_of(fi)
             if (sites or self.refs[fi.qn]) and all(id(getattr(cs, "_site", cs)) in self.base.inlined_sites and id(getattr(cs, "_site", cs)) not in self.base.refused_sites
                                                    for _, cs in sites):
                 self.internal.add(fi.qn)
@@ -888,7 +1146,7 @@ class Reach:
             node = scope.lam if scope.lam is not None else call
             for nid in cfg_of(fi).locate(node):
                 for st, depth, stack in sx.visits.get((fi.qn, nid), []):
-                    root = stack[0][0] if stack else fi.qn
+                    root = stack[0][0].replace(kit.ENTRY_TAG, "") if stack else fi.qn
                     if root == entry.qn:
                         return True
         return False
@@ -910,7 +1168,7 @@ def _check_unreachable(ctx, R_, sxs, desc_fmt, kinds=("sink", "filewrite")):
                                     % (fi.short, stmt_text(call, 60), why, "; ".join(sorted({u for st, _ in vs for u in st.uncertain()})[:3])))
             if certain:
                 st, stack = certain[0]
-                detail = "reached %s on the path [%s]%s" % (why, st.describe(), (" (entered from %s)" % stack[0][0].split(".")[-1]) if stack else "")
+                detail = "reached %s on the path [%s]%s" % (why, st.describe(), (" (entered from %s)" % stack[0][0].split(".")[-1].replace(kit.ENTRY_TAG, "")) if stack else "")
                 break
         ctx.ob(desc_fmt % label, detail is None, fi, call, detail=detail)
     return n
@@ -921,17 +1179,31 @@ def c(ctx):
     prog = ctx.prog
     fl = Flow(prog)
     R_ = Reach(prog, fl)
-    # Read-only configurations: self.write holds the default of the constructor's parameter (False, which is also what
+    # Read-only configurations: the constructor's permission parameter holds its default (False, which is also what
     # the command line passes without --write) or any other falsy value an embedding application may pass (None, 0).
     # Requiring unreachability for each of them is the old "a branch on the *truth* of self.write dominates the sink":
     # `if self.write is None` / `is False` style tests let some falsy value through and are reported.
-    default = _write_default(prog, fl)
-    ctx.need(default is not None and not default, "cannot determine the read-only value of self.write from FileServer.__init__")
+    # The scenario fixes every attribute the constructor computes from that parameter: `self.write = write`, but
+    # just as well a complement flag `self.read_only = not write`, `self._writable = bool(write)` or a mode string
+    # `"rw" if write else "ro"` -- their values under write=v are folded by the checker's own evaluator, so which of
+    # them the handlers consult (and under which name) is immaterial.
+    param, default, derived = _permission_config(prog, fl)
+    ctx.need(param is not None, "cannot find the write-permission parameter of FileServer.__init__ (a parameter named `write` or the one self.write is assigned from)")
+    ctx.need(default is not kit.Unk and not default, "cannot determine the read-only default of the constructor parameter `%s`" % param)
     values = [default] + [v for v in (False, None, 0) if not any(v is w or (type(v) is type(w) and v == w) for w in [default])]
     runs = []
     for v in values:
-        sc = kit.Scenario("write", bind=lambda c_, v=v: kit.K(v, taint=True) if _is_self_write(c_) else None)
-        runs.append((R_.run(sc), "without write permission (self.write == %r)" % (v,)))
+        bound = {}
+        for ch, expr in derived.items():
+            try:
+                bound[ch] = kit.value_to_ast(kit.ceval(expr, {param: v}), taint=True) if expr is not None else None
+            except (kit.Unk, kit.CRaise):
+                bound[ch] = None
+        ctx.need(any(b is not None for b in bound.values()),
+                 "no attribute of FileServer holds a value the rule can compute from the constructor parameter `%s` (candidates: %s)"
+                 % (param, ", ".join(sorted(bound)) or "none"))
+        sc = kit.Scenario("write", bind=lambda c_, bound=bound: bound.get(c_))
+        runs.append((R_.run(sc), "without write permission (%s)" % ", ".join("%s == %s" % (ch, stmt_text(b, 30)) for ch, b in sorted(bound.items()) if b is not None)))
     n = _check_unreachable(ctx, R_, runs, "mutating operation %s is dominated by the self.write test")
     ctx.floor("mutating sinks in FileServer", n, 5)
 
@@ -950,18 +1222,16 @@ def c(ctx):
                detail="exits on the read-only side: %s" % "; ".join(sorted({"%s %s" % (k, _short_val(v)) for k, v, st in outs})))
     ctx.floor("self.write tests in mutating methods", tests, 1)
 
-    # self.write is configuration: assigned in __init__ only
+    # the permission is configuration: the attributes holding it are assigned in __init__ only
     writers = []
     for fi in fl.funcs:
-        for kind, node in stores_to(fi.node, "self.write"):
-            writers.append((fi, node))
-    ctx.floor("assignments of self.write", len(writers), 1)
-    for fi, node in writers:
-        ctx.ob("self.write is assigned only in __init__", fi.name == "__init__" and fi.cls is not None, fi, node)
-
-
-def _is_self_write(c_):
-    return c_ == "self.write"
+        sn = _self_name(fi) or "self"
+        for ch in sorted(derived):
+            for kind, node in stores_to(fi.node, sn + "." + ch.split(".", 1)[1]):
+                writers.append((fi, node, ch))
+    ctx.floor("assignments of the write-permission attributes", len(writers), 1)
+    for fi, node, ch in writers:
+        ctx.ob("%s is assigned only in __init__" % ch, fi.name == "__init__" and fi.cls is not None, fi, node)
 
 
 def _plain(v):
@@ -982,25 +1252,51 @@ def _short_val(v):
     return stmt_text(v, 60)
 
 
-def _write_default(prog, fl):
-    """The value self.write has unless the application passes something else: the default of the __init__
-    parameter it is assigned from (evaluated by the checker's own evaluator)."""
+def _permission_config(prog, fl):
+    """(parameter, default, {"self.X": expression over the parameter or None}) -- the constructor parameter that
+    carries the write permission (named `write`; failing that, the parameter `self.write` is assigned from), its
+    default as evaluated by the checker's own evaluator (kit.Unk when it has none / is not constant), and the
+    attributes __init__ computes from it.  An attribute whose value the rule cannot attribute to a single
+    unconditional assignment maps to None (it stays unconstrained in the scenario)."""
     init = fl.ci.methods.get("__init__")
     if init is None:
-        return None
-    vals = [n.value for k_, n in stores_to(init.node, "self.write") if isinstance(n, ast.Assign)]
-    if len(vals) != 1:
-        return None
-    v = resolve_local(init.node, vals[0])
-    if isinstance(v, ast.Name):
-        sc = Scope(init)
-        is_param, d = sc.param_default(v.id)
-        if is_param and d is not None and not writes_to_name(init.node, v.id):
-            v = d
+        return None, kit.Unk, {}
+    sn = _self_name(init)
+    sc = Scope(init)
+    assigns = {}
+    for n in walk_no_nested(init.node):
+        if isinstance(n, (ast.Assign, ast.AnnAssign, ast.AugAssign)):
+            tgts = n.targets if isinstance(n, ast.Assign) else [n.target]
+            for t in tgts:
+                for tt in (t.elts if isinstance(t, (ast.Tuple, ast.List)) else [t]):
+                    if isinstance(tt, ast.Attribute) and isinstance(tt.value, ast.Name) and tt.value.id == sn:
+                        simple = isinstance(n, (ast.Assign, ast.AnnAssign)) and tt is t and n.value is not None and n in init.node.body
+                        assigns.setdefault("self." + tt.attr, []).append((n.value, simple))
+    param = None
+    if sc.param_default("write")[0]:
+        param = "write"
+    else:
+        vals = assigns.get("self.write", [])
+        if len(vals) == 1 and vals[0][0] is not None:
+            v = resolve_local(init.node, vals[0][0])
+            if isinstance(v, ast.Name) and sc.param_default(v.id)[0]:
+                param = v.id
+    if param is None:
+        return None, kit.Unk, {}
+    if writes_to_name(init.node, param):
+        return param, kit.Unk, {}
+    d = sc.param_default(param)[1]
     try:
-        return kit.ceval(v)
+        default = kit.ceval(d) if d is not None else kit.Unk
     except (kit.Unk, kit.CRaise):
-        return None
+        default = kit.Unk
+    derived = {}
+    for ch, vals in assigns.items():
+        exprs = [resolve_local(init.node, v) if v is not None else None for v, _ in vals]
+        mentions = [e is not None and any(isinstance(x, ast.Name) and x.id == param for x in ast.walk(e)) for e in exprs]
+        if any(mentions) or (ch == "self.write" and param == "write"):
+            derived[ch] = exprs[0] if len(exprs) == 1 and mentions[0] and vals[0][1] else None
+    return param, default, derived
 
 
 # ---------------------------------------------------------------------------
@@ -1022,20 +1318,47 @@ def d(ctx):
     req, path = p
     fn = fi.node
 
-    # the file object: `with <path>.open(mode) as f`
+    # the file object: the result of `<path>.open(mode)` / `open(<path>, mode)` / `io.open(...)`, bound by `with ... as f`,
+    # by an assignment (closed in a try/finally or not) or by `:=`
+    fl = Flow(prog)
+
+    def open_parts(ce):
+        """(path expression, mode expression or None) when ce opens a file"""
+        if not isinstance(ce, ast.Call):
+            return None
+        ext = fl.ext_name(fi, ce)
+        kw = lambda name: next((k.value for k in ce.keywords if k.arg == name), None)
+        if ext in ("open", "io.open"):
+            return (ce.args[0] if ce.args else kw("file")), (ce.args[1] if len(ce.args) > 1 else kw("mode"))
+        if isinstance(ce.func, ast.Attribute) and ce.func.attr == "open" and ext not in OS_READ and ext not in OS_WRITE:
+            return ce.func.value, (ce.args[0] if ce.args else kw("mode"))
+        return None
+
     opens = []
     for n in walk_no_nested(fn):
+        bound = []
         if isinstance(n, (ast.With, ast.AsyncWith)):
-            for item in n.items:
-                ce = item.context_expr
-                if isinstance(ce, ast.Call) and isinstance(ce.func, ast.Attribute) and ce.func.attr == "open" and isinstance(item.optional_vars, ast.Name):
-                    opens.append((n, ce, item.optional_vars.id))
-    ctx.floor("with <path>.open(...) as f in render_get_file", len(opens), 1)
+            bound = [(item.context_expr, item.optional_vars) for item in n.items]
+        elif isinstance(n, ast.Assign) and len(n.targets) == 1:
+            bound = [(n.value, n.targets[0])]
+        elif isinstance(n, ast.AnnAssign) and n.value is not None:
+            bound = [(n.value, n.target)]
+        elif isinstance(n, ast.NamedExpr):
+            bound = [(n.value, n.target)]
+        for ce, tgt in bound:
+            # contextlib.closing(open(...)) / ExitStack.enter_context(open(...)) hand the same object on
+            while isinstance(ce, ast.Call) and open_parts(ce) is None and len(ce.args) == 1 and not ce.keywords \
+                    and (chain(ce.func) or "").split(".")[-1] in ("closing", "enter_context"):
+                ce = ce.args[0]
+            parts = open_parts(ce)
+            if parts is not None and isinstance(tgt, ast.Name):
+                opens.append((n, ce, tgt.id, parts))
+    ctx.floor("files opened and bound to a name in render_get_file", len(opens), 1)
     ctx.need(len(opens) == 1, "render_get_file opens %d files; the rule expects one" % len(opens))
-    wnode, ocall, fvar = opens[0]
-    opened = resolve_local(fn, ocall.func.value)
+    wnode, ocall, fvar, (opath, mode) = opens[0]
+    ctx.need(len(writes_to_name(fn, fvar)) == 1, "the name %s of the opened file is bound more than once" % fvar)
+    opened = resolve_local(fn, opath) if opath is not None else None
     ctx.ob("the file opened is the path parameter", isinstance(opened, ast.Name) and opened.id == path and not writes_to_name(fn, path), fi, ocall)
-    mode = ocall.args[0] if ocall.args else next((k.value for k in ocall.keywords if k.arg == "mode"), None)
     mv = _const_str(resolve_local(fn, mode)) if mode is not None else None
     ctx.ob("the file is opened read-only in binary mode", mv is not None and "b" in mv and "r" in mv and not any(c in mv for c in "wax+"), fi, ocall, detail="mode %r" % mv)
 
@@ -1049,7 +1372,6 @@ def d(ctx):
     sn, rn = cfg.loc1(seek), cfg.loc1(read)
     ctx.ob("the seek precedes the read on every path", cfg.dominates(sn, rn) and sn != rn and sn not in cfg.reach({rn}), fi, read)
 
-    fl = Flow(prog)
     sx = kit.SX(prog, fl.ci, None)
     outcomes = sx.run(fi)
     N_ = Normalizer()
@@ -1066,9 +1388,17 @@ def d(ctx):
     def is_bt(v):
         return (getattr(v, "_cls", None) or "").endswith(".BlockwiseTuple")
 
+    BT = "aiocoap.optiontypes.BlockOption.BlockwiseTuple"
+
     def bt_args(v):
-        """the three fields of a constructed descriptor (positional or keyword), else None"""
+        """the three fields of a constructed descriptor (positional or keyword; or another descriptor with fields
+        replaced: X._replace(more=...)), else None"""
         pr_ = kit.opaque_parts(v)
+        rp_ = sx.replace_parts(v)
+        btf = sx.nt_fields(BT)
+        if rp_ is not None and btf and len(btf) == 3 and BT in sx.nt_candidates(rp_[1]):
+            vals_ = [attr(v, f) for f in btf]
+            return None if any(isinstance(x, ast.Attribute) and x.value is v for x in vals_) else vals_
         fields = getattr(v, "_ntfields", None)
         if pr_ is None or not is_bt(v) or not fields or len(fields) != 3:
             return None
@@ -1103,6 +1433,11 @@ def d(ctx):
         return out_
 
     # --- the read: position and length, per state --------------------------------------------------
+    # the offset counts from the start of the file: no `whence`, or 0 / os.SEEK_SET / io.SEEK_SET (positional or keyword)
+    whence = seek.args[1] if len(seek.args) == 2 else next((k.value for k in seek.keywords if k.arg == "whence"), None)
+    whence = resolve_local(fn, whence) if whence is not None else None
+    from_start = len(seek.args) <= 2 and all(k.arg == "whence" for k in seek.keywords) and not (len(seek.args) == 2 and seek.keywords) \
+        and (whence is None or _int_const(whence) == 0 or fl.ext_name(fi, ast.Call(func=whence, args=[], keywords=[])) in ("os.SEEK_SET", "io.SEEK_SET"))
     rstates = [st for st, depth, stack in sx.visits.get((fi.qn, rn), []) if depth == 0]
     ctx.need(rstates, "the read is not reachable in render_get_file")
     descriptors = {}
@@ -1111,7 +1446,7 @@ def d(ctx):
         off = sx.peek(fi, sn, seek.args[0], st)
         ln = sx.peek(fi, rn, read.args[0], st) if len(read.args) == 1 else None
         B = descriptor_of(off)
-        if B is None or len(seek.args) != 1 or seek.keywords:
+        if B is None or not from_start:
             bad_seek = bad_seek or "offset = %s" % (stmt_text(off, 80) if off is not None else "?")
             continue
         descriptors.setdefault(kit.T(B), B)
@@ -1219,22 +1554,6 @@ def d(ctx):
 # C19.e
 
 
-def _handler_catches(prog, h, exc="FileNotFoundError"):
-    if h.type is None:
-        return True
-    types = h.type.elts if isinstance(h.type, ast.Tuple) else [h.type]
-    for t in types:
-        txt = chain(t)
-        if not txt:
-            continue
-        last = txt.split(".")[-1]
-        if last in ("IOError", "EnvironmentError"):
-            last = "OSError"
-        if prog.is_subclass(exc, last):
-            return True
-    return False
-
-
 @R.clause("C19.e", "InvalidPathError and the trailing-slash errors are 4.00; FileNotFoundError of the first stat/unlink is mapped to 4.04/4.12")
 def e(ctx):
     prog = ctx.prog
@@ -1264,78 +1583,100 @@ def e(ctx):
                    q is not None and _is_renderable(prog, q) and (_class_code(prog, q) or "") in FOUR_XX, fi, rz)
 
     # (2) first stat/unlink of a request maps FileNotFoundError to 4.04 (4.12 for a failed precondition)
+    #
+    # Decided by executing the request handlers under the scenario "the first file-system operation of the request is
+    # a stat/unlink and fails with FileNotFoundError" (a later one is preceded by an operation that succeeded on the
+    # same path, so the file exists -- races aside) and looking at how the request then ends.  Where the handler
+    # sits (in the method, in a helper that returns the stat result or raises an error class handed in as an
+    # argument), whether it catches FileNotFoundError or a base class and tests isinstance, whether it raises at
+    # once or records the absence in a local that a later test turns into the error, is immaterial.
     fl = Flow(prog)
-    n = total = 0
+    effects, fail, probes = set(), {}, {}
+    total = 0
     for fi in fl.funcs:
-        if fi.cls is None or not fi.name.startswith("render_"):
+        if _is_sanitiser(fi):
             continue
         cfg = cfg_of(fi)
-        scope = _scopes(fi)[0]
-        sinks = [(call, label) for call, paths, mut, label in fl.sinks(scope)]
-        # calls of helpers of the class that contain sinks themselves count as sinks here (one level)
-        # -- called directly, or handed over as a callable (method reference, closure, lambda, functools.partial of
-        # these) to a call that runs it: run_in_executor(None, self.m, a) / to_thread(job) are the same fact as m(a)
-        def _callee_with_sinks(x, depth=0):
-            x = resolve_local(fi.node, x)
-            if isinstance(x, ast.Attribute) and isinstance(x.value, ast.Name) and x.value.id == _self_name(fi):
-                m = fl.ci.methods.get(x.attr)
-                return m is not None and not _is_sanitiser(m) and bool(fl.sinks(_scopes(m)[0]))
-            if isinstance(x, ast.Name):
-                return any(f.parent is fi and f.name == x.id and fl.sinks(_scopes(f)[0]) for f in fl.funcs)
-            if isinstance(x, ast.Lambda):
-                return any(sc.lam is x and fl.sinks(sc) for sc in _scopes(fi))
-            if isinstance(x, ast.Call) and (chain(x.func) or "").split(".")[-1] == "partial" and x.args and depth < 3:
-                return _callee_with_sinks(x.args[0], depth + 1)
-            return False
-
-        for nd in _scope_nodes(scope):
-            if isinstance(nd, ast.Call) and (_callee_with_sinks(nd.func) or any(_callee_with_sinks(a) for a in nd.args)):
-                sinks.append((nd, "helper"))
-        sink_nodes = {id(call): set(cfg.locate(call)) for call, _ in sinks}
-        # a helper whose every call site is preceded by a successful sink needs no mapping of its own
-        sites = fl.call_sites(fi.name)
-        covered_by_caller = bool(sites) and all(
-            s.lam is None and any(
-                cfg_of(s.fi).dominates(x, y) and x != y
-                for c2, *_ in fl.sinks(_scopes(s.fi)[0]) for x in cfg_of(s.fi).locate(c2) for y in cfg_of(s.fi).locate(getattr(cs, "_via", cs)))
-            for s, cs in sites)
-        for call, label in sinks:
-            if label not in (".stat()", ".unlink()"):
-                continue
+        for call, paths, mut, label in fl.sinks(_scopes(fi)[0]):
             nids = cfg.locate(call)
-            total += len(nids)
-            for nid in nids:
-                dominated = covered_by_caller or any(
-                    o is not call and any(cfg.dominates(x, nid) and x != nid and not _exc_only(cfg, x, nid) for x in sink_nodes[id(o)])
-                    for o, _ in sinks)
-                if dominated:
-                    continue
-                n += 1
-                hs = [cfg.nodes[d] for d, lab in cfg.succ[nid] if lab == "exc" and d != cfg.rexit]
-                hs = [h for h in hs if h.kind == "handler" and _handler_catches(prog, h.ast)]
-                ok = bool(hs)
-                detail = "no enclosing handler for FileNotFoundError"
-                if ok:
-                    h = hs[0]
-                    reach = cfg.reach({h.id}, skip_labels=("exc",))
-                    exits = [cfg.nodes[x] for x in reach if cfg.nodes[x].kind in ("return", "raise")]
-                    falls = cfg.exit in cfg.reach({h.id}, avoid={x.id for x in exits}, skip_labels=("exc",))
-                    ok = bool(exits) and not falls and all(_responds_with(prog, fi, x.ast, {"NOT_FOUND", "PRECONDITION_FAILED"}) for x in exits)
-                    detail = "handler exits: %s" % "; ".join(stmt_text(x.ast, 60) for x in exits)
-                ctx.ob("a missing file at the first %s of the request is answered with 4.04 (4.12 under If-Match)" % label, ok, fi, call, detail=detail)
-    ctx.floor("stat/unlink sinks in render_* methods", total, 5)
-    ctx.floor("stat/unlink probes not preceded by another sink in render_* methods", n, 1)
+            effects.update((fi.qn, nid) for nid in nids)
+            if label.split(" ")[0] in _PROBES:
+                total += len(nids)
+                for nid in nids:
+                    fail[(fi.qn, nid)] = "FileNotFoundError"
+                    probes[(fi.qn, nid)] = (fi, call, label)
+    ctx.floor("stat/unlink operations in FileServer", total, 5)
+    # a statement that calls -- or hands over as a callable -- a function of the file server that performs file-system
+    # operations has touched the file system once it has completed (where the executor steps into the callee, the
+    # operations inside are effects / probes in their own right)
+    has = {fi.qn for fi in fl.funcs if not _is_sanitiser(fi) and any(fl.sinks(sc_) for sc_ in _scopes(fi))}
+    by_node = {id(fi.node): fi for fi in fl.funcs}
+    modfuncs = {fi.name: fi for fi in fl.funcs if fi.cls is None and fi.parent is None}
+
+    def callees(fi, nodes):
+        for n in nodes:
+            if isinstance(n, ast.Attribute) and isinstance(n.value, ast.Name) and n.value.id == _self_name(fi) and n.attr in fl.ci.methods:
+                yield n, fl.ci.methods[n.attr]
+            elif isinstance(n, ast.Name) and isinstance(n.ctx, ast.Load):
+                f = fi
+                while f is not None:
+                    g = next((x for x in fl.funcs if x.parent is f and x.name == n.id), None)
+                    if g is not None:
+                        yield n, g
+                        break
+                    f = f.parent
+                else:
+                    if n.id in modfuncs and n.id not in kit._local_names(fi.node):
+                        yield n, modfuncs[n.id]
+
+    changed = True
+    while changed:
+        changed = False
+        for fi in fl.funcs:
+            if fi.qn not in has and not _is_sanitiser(fi) and any(g.qn in has for _, g in callees(fi, list(ast.walk(fi.node)))):
+                has.add(fi.qn)
+                changed = True
+    for fi in fl.funcs:
+        if _is_sanitiser(fi):
+            continue
+        cfg = cfg_of(fi)
+        for n, g in callees(fi, _scope_nodes(_scopes(fi)[0])):
+            if g.qn in has and not _is_sanitiser(g):
+                effects.update((fi.qn, nid) for nid in cfg.locate(n))
+    handlers = [fi for fi in fl.funcs if fi.cls is not None and fi.parent is None and fi.name.startswith("render_")]
+    sx = kit.SX(prog, fl.ci, kit.Scenario("missing", effects=effects, fail=fail))
+    outcomes = {fi.qn: sx.run(fi) for fi in handlers}
+    results = {}
+    for fi in handlers:
+        sites = fl.call_sites_of(fi)
+        if sites and all(id(getattr(cs, "_site", cs)) in sx.inlined_sites and id(getattr(cs, "_site", cs)) not in sx.refused_sites for _, cs in sites):
+            continue  # only runs on behalf of its callers, which were executed through it
+        for kind, val, st in outcomes[fi.qn]:
+            if "via_exc" in st.flags:
+                continue  # some later statement failed on its own
+            for flg in st.flags:
+                if flg.startswith("failed:"):
+                    qn_, nid_ = flg[7:].rsplit(":", 1)
+                    results.setdefault((qn_, int(nid_)), []).append((fi, kind, val))
+    n = 0
+    for key in sorted(probes):
+        if key not in results:
+            continue
+        n += 1
+        pfi, call, label = probes[key]
+        outs = results[key]
+        ok = all(_outcome_responds_with(prog, efi, kind, val, {"NOT_FOUND", "PRECONDITION_FAILED"}) for efi, kind, val in outs)
+        ctx.ob("a missing file at the first %s of the request is answered with 4.04 (4.12 under If-Match)" % label.split(" ")[0], ok, pfi, call,
+               detail="the request then ends with: %s" % "; ".join(sorted({"%s %s" % (kind, _short_val(val)) for _, kind, val in outs})))
+    ctx.floor("stat/unlink probes not preceded by another file-system operation", n, 1)
+
+
+_PROBES = {".stat()", ".stat", ".lstat()", ".lstat", ".unlink()", ".unlink", "os.stat()", "os.lstat()", "os.unlink()", "os.remove()"}
 
 
 FOUR_XX = {"BAD_REQUEST", "UNAUTHORIZED", "BAD_OPTION", "FORBIDDEN", "NOT_FOUND", "METHOD_NOT_ALLOWED", "NOT_ACCEPTABLE",
            "REQUEST_ENTITY_INCOMPLETE", "CONFLICT", "PRECONDITION_FAILED", "REQUEST_ENTITY_TOO_LARGE",
            "UNSUPPORTED_CONTENT_FORMAT", "UNPROCESSABLE_ENTITY", "TOO_MANY_REQUESTS"}
-
-
-def _exc_only(cfg, a, b):
-    """b is reachable from a only through a's own failure (b sits in a handler of a's exception)."""
-    starts = {d for d, lab in cfg.succ[a] if lab != "exc"}
-    return b not in cfg.reach(starts, include_src=True)
 
 
 # ---------------------------------------------------------------------------
@@ -1409,3 +1750,24 @@ R.seed("C19.c", F, "    async def render_delete(self, request):\n        if not 
 R.seed("C19.d", F, "            0, 0, 6\n", "            1, 0, 6\n", "default descriptor starts at block 1")
 R.seed("C19.d", F, "block_in.block_number, len(data) > block_in.size, block_in.size_exponent", "block_in.block_number, len(data) == block_in.size, block_in.size_exponent", "more set on exactly filled blocks only")
 R.seed("C19.f", F, "        if not request.opt.uri_path or not request.opt.uri_path[-1]:\n            # Deleting", "        if request.opt.uri_path and not request.opt.uri_path[-1]:\n            # Deleting", "DELETE with an empty Uri-Path unlinks the root's own directory entry")
+
+# seeds for the second hardening round (verdict values, configuration attributes, decorators, failure scenarios,
+# element kinds, descriptor copies)
+R.seed("C19.c", F, "    async def render_delete(self, request):\n        if not self.write:\n            return aiocoap.Message(code=codes.FORBIDDEN)\n",
+       "    async def render_delete(self, request):\n        refusal = codes.FORBIDDEN if not self.write else None\n        if refusal is codes.BAD_REQUEST:\n            return aiocoap.Message(code=refusal)\n",
+       "the verdict is handed on as a code but the dispatch tests for another constant: read-only DELETE falls through")
+R.seed("C19.c", F, "        self.write = write\n", "        self.write = not write\n", "the permission is stored inverted: the default configuration writes")
+R.seed("C19.c", F, "    async def render_delete(self, request):\n        if not self.write:\n            return aiocoap.Message(code=codes.FORBIDDEN)\n",
+       "    def _guarded(handler):\n        async def wrapper(self, request):\n            if self.write is None:\n                return aiocoap.Message(code=codes.FORBIDDEN)\n            return await handler(self, request)\n\n        return wrapper\n\n    @_guarded\n    async def render_delete(self, request):\n",
+       "the write test moved into a decorator that only stops write=None")
+R.seed("C19.e", F, "            st = path.stat()\n        except FileNotFoundError:\n            raise NoSuchFile()\n\n        etag",
+       "            st = path.stat()\n        except FileNotFoundError:\n            st = None\n        if st is None:\n            raise InvalidPathError()\n\n        etag",
+       "absence recorded in a local and turned into 4.00 instead of 4.04 afterwards")
+R.seed("C19.e", F, "            path.unlink()\n        except FileNotFoundError:\n            raise NoSuchFile()",
+       "            path.unlink()\n        except OSError as e:\n            if isinstance(e, PermissionError):\n                raise NoSuchFile()\n            raise",
+       "broad handler whose isinstance test lets FileNotFoundError through")
+R.seed("C19.a", F, "        for f in path.iterdir():\n", "        for f in [self.root / name for name in request.opt.uri_path]:\n", "listing built from unsanitised components by a comprehension")
+R.seed("C19.d", F, "aiocoap.optiontypes.BlockOption.BlockwiseTuple(\n            block_in.block_number, len(data) > block_in.size, block_in.size_exponent\n        )",
+       "block_in._replace(more=len(data) >= block_in.size)", "descriptor copied with _replace, more set on an exactly filled last block")
+R.seed("C19.d", F, "f.seek(block_in.start)", "f.seek(block_in.start, 1)", "offset relative to the current position")
+R.seed("C19.b", F, "        return self.root / \"/\".join(path)\n", "        return Path(self.root, *path[1:])\n", "first component dropped from the joined path")
